@@ -139,21 +139,7 @@ func registerVerifExternals(sh *Shared) {
 	})
 	// choose(name, n): concretized n-way choice in [0,n)
 	reg(mainPath+".choose", func(fr *frame, args []value) value {
-		e := fr.i.ex
-		name := e.nondetName(args[0].(string))
-		n := int(asInt64(fr.i.concretizeInt(args[1])))
-		if e.concrete != nil {
-			v := int(e.concrete[name])
-			if v < 0 || v >= n {
-				e.abort(EndAssume, "choose out of range")
-			}
-			return v
-		}
-		t := e.pool.Var(name, bvSort(64))
-		e.nondets = append(e.nondets, NondetRec{name, "Int", t})
-		e.addPC(e.pool.BVCmp("bvult", t, e.pool.BV(uint64(n), 64)))
-		v := e.Concretize(t)
-		return int(v)
+		return fr.i.chooseNamed(args[0].(string), int(asInt64(fr.i.concretizeInt(args[1]))))
 	})
 	// concretize(x): force a value to be concrete by case-splitting
 	// pickU64(x): fix x to some value the path allows, without exploring the others (witness search)
@@ -203,6 +189,7 @@ func registerVerifExternals(sh *Shared) {
 	})
 
 	registerStdStubs(sh)
+	registerSchedStubs(sh)
 }
 
 // ---------------------------------------------------------------------
@@ -345,7 +332,6 @@ func registerStdStubs(sh *Shared) {
 		}
 		m.writer = false
 		fr.i.hbRelease(fr, args[0])
-		fr.i.syncPoint(fr, "unlock")
 		return nil
 	}
 	rlock := func(fr *frame, args []value) value {
@@ -355,7 +341,7 @@ func registerStdStubs(sh *Shared) {
 			fr.i.blockOn(fr, func() bool { return !m.writer }, "RLock")
 		}
 		m.readers++
-		fr.i.hbAcquire(fr, args[0])
+		fr.i.hbAcquireShared(fr, args[0])
 		return nil
 	}
 	runlock := func(fr *frame, args []value) value {
@@ -365,7 +351,6 @@ func registerStdStubs(sh *Shared) {
 		}
 		m.readers--
 		fr.i.hbReleaseShared(fr, args[0])
-		fr.i.syncPoint(fr, "runlock")
 		return nil
 	}
 	reg("(*sync.Mutex).Lock", lock)
@@ -394,7 +379,6 @@ func registerStdStubs(sh *Shared) {
 		} else {
 			fr.i.hbAcquire(fr, args[0])
 		}
-		fr.i.syncPoint(fr, "once-done")
 		return nil
 	})
 
@@ -435,13 +419,19 @@ func registerStdStubs(sh *Shared) {
 		})
 	}
 	reg("(*sync/atomic.Int32).Add", func(fr *frame, args []value) value {
+		fr.i.syncPoint(fr, "atomic-add")
 		f := atomicField(fr, args[0])
+		fr.i.hbAcquire(fr, args[0])
 		*f = (*f).(int32) + args[1].(int32)
+		fr.i.hbRelease(fr, args[0])
 		return *f
 	})
 	reg("(*sync/atomic.Int64).Add", func(fr *frame, args []value) value {
+		fr.i.syncPoint(fr, "atomic-add")
 		f := atomicField(fr, args[0])
+		fr.i.hbAcquire(fr, args[0])
 		*f = (*f).(int64) + args[1].(int64)
+		fr.i.hbRelease(fr, args[0])
 		return *f
 	})
 
